@@ -1,34 +1,129 @@
 """Configuration of ./check for C06 (see tools/props.py)."""
 ENTRY = {'coq_dir': 'C06',
- 'coq_deps': ['Mgr', 'C10'],
+ 'coq_deps': ['Mgr', 'C10', 'Tcp', 'Ts'],
  'model_files': ['Glue'],
  'harness': 'c05',
  'harness_extra': '--focus limits',
  'cases': {'quick': 1500, 'thorough': 400000},
- 'consts': [],
- 'rule': 'same harness as C05 (two scripted transports TCP + WebSocket, dials spanning both, the user-facing handle) with the '
-         'generator biased to small limits (1..3) so that the counted sets saturate and accept failures as ordinary events; a '
-         "third of the cases open with a scripted 'crowd' shape under limits of 3..5 (one side sometimes unlimited): a peer is "
-         'given two connections (inbound/inbound, outbound/inbound, or one inbound with a dial in flight), a further connection '
-         'for the same peer finishes negotiating while the global count is below the limit (refused by the per-peer rule, not by '
-         'the limit), then other peers arrive (inbound, pending-inbound, outbound) until the limits should be reached and '
-         'beyond; the oracle recomputes the ledger of established connections from the events and the accept() calls the '
-         "implementation made (on whichever transport) and checks the per-peer bound, both maxima, 'no leaked slot' (every id in "
-         'the dumped incoming / outgoing sets is an established connection of that direction in the recomputed ledger: '
-         "C06_counted_are_live evaluated on the implementation's dump, so a slot that is not released by a close is reported "
-         "with a replay even before the gate refuses a dial), 'accepted when below the limit' and 'rejection leaves established "
-         "records untouched' at every step. Non-trivial: trace >= 8 numbers; distinct (case, trace) pairs are counted.",
- 'level_text': "Proof: the cap invariant (every established connection is recorded in its peer's state, ids unique, counted sets "
-               '= established connections of that direction, sizes within the configured maxima, accept futures consistent) is '
-               'inductive over every event the manager handles — with connections arriving over several transports and dials '
-               'spanning several transports —, for every configuration incl. Some 0 and every set of installed transports, under '
-               'the stated uniqueness of connection ids; corollaries: at most two per peer (also one per transport), maxima '
-               'never exceeded, no leaked slot, exact release, accept below the limit, rejection preserves established records, '
-               'dial gate. Model tied to the code step by step.',
- 'level_note': 'Trusted: Coq kernel, extraction, harness + ScriptedTransport hooks. Environment assumption env_ok: an '
-               'established connection never reuses a live id (the transports draw ids from one shared counter), a close notice '
-               'names the owning peer and follows the accept future.',
- 'trusted_base': ['uniqueness of connection ids across transports (one shared atomic counter in the code) is an assumption of '
-                  'the theorems (env_ok)'],
- 'assumptions': ['two installed transports at most (TCP, WebSocket; quic compiled out of the harness build)',
-                 'usize counters do not wrap']}
+ 'consts': ['C06_LIMITS_CALL_SITES', 'C06_TRANSPORT_SHAPES_OK'],
+ 'rule': 'SIX KINDS OF CASES from one harness run (c05 --focus limits; harness/src/c06x.rs, c06_sock.rs), told apart by the first number. (1) 9602, '
+         'six cases in eight: the manager stream of C05 (two scripted transports TCP + WebSocket, dials spanning both, the user-facing handle) with '
+         'the generator biased to small limits (1..3, one side sometimes unlimited) so that the counted sets saturate, accept failures as ordinary '
+         "events, and a third of the cases opening with a scripted 'crowd' shape under limits of 3..5 (a peer is given two connections — "
+         'inbound/inbound, outbound/inbound, or one inbound with a dial in flight —, a further connection for the same peer finishes negotiating '
+         'while the global count is below the limit, then other peers arrive inbound / pending-inbound / outbound until the limits are reached and '
+         'beyond); WRAPPED: after every step the log of the calls the real manager made on its ConnectionLimits (method, arguments, result, in '
+         'order; recorded by the cfg(verif) wrapper LoggedLimits) is appended and compared with Limits.lim_log, and in half of the cases the '
+         'scripted transports return Err from reject / accept_pending / reject_pending in every combination (the manager must ignore it). Oracle: '
+         'the ledger of established connections is recomputed from the events and the accept() calls the implementation made; per-peer bound, both '
+         "maxima, 'no leaked slot' (every id in the dumped incoming / outgoing sets is an established connection of that direction), 'accepted when "
+         "below the limit', 'rejection leaves established records untouched' at every step, and every established connection / pending inbound "
+         'socket of an installed transport is answered by exactly one of accept | reject (accept_pending | reject_pending). (2) 9600, one case in '
+         'eight + 21 table cases every run: the REAL ConnectionLimits object driven directly: a configuration built by 0-4 ConnectionLimitsConfig '
+         'builder calls (overrides, untouched sides), then 3-40 (5-80 thorough) method calls incl. sequences no manager would make (accept without '
+         'check, repeated ids, closes of unknown ids); after every call its result and both sets are compared with Limits.lim_step; the table runs '
+         'one script that meets every method below / at the maximum with known / unknown / repeated ids under every configuration of {None, Some 0, '
+         'Some 1, Some 2}^2. Oracle on the trace alone: configuration = last builder call per side; checks change nothing and answer by the counts; '
+         'Ok(k) of on_dial_address has k >= 1 and k = max - counted; an accept changes only its own set and only by its id, and after a successful '
+         'check the maximum holds; a close removes exactly its id from both sets; an unlimited side is never counted. (3) 9601, one case in eight + '
+         '363 table cases every run: the REAL PeerState driven directly from any start state (seven shapes with their ConnectionRecords, address set '
+         'and transport set; also coinciding ids) through 2-30 (3-60) calls of its eight methods, records built by ConnectionRecord::new / '
+         'from_endpoint from addresses without / with the right / with a wrong /p2p suffix; after every call the result and the whole state (records '
+         'with addresses) are compared with PeerTable.pstep; the table is every shape x every event class with ids 1,2,3,4 and an unknown one. '
+         'Oracle: an accepted connection is stored in the first free slot with the record it came with and the others are untouched; a refusal '
+         'happens only with two slots taken or one taken and the other reserved for a dial with another id, and changes nothing; a close removes '
+         'exactly its slot and reports true exactly when the last one goes; no other method touches a slot. (4) 9603, two table cases every run + '
+         'one generated case in 250 (2000 thorough): REAL loopback sockets: pairs of real TcpTransport / WebSocketTransport (facade verif_sock), the '
+         'local one driven call by call like the manager drives it (PendingInboundConnection -> accept_pending | reject_pending, '
+         'ConnectionEstablished -> accept | reject, inbound, outbound and a bare socket), the remote one a node that accepts everything and runs its '
+         'connection tasks. Oracle: a rejected connection is seen going away by the remote end (its connection task reports ConnectionClosed, its '
+         'dial fails, the bare socket reads EOF), its entry is consumed (a second reject / reject_pending finds nothing), nothing is reported about '
+         'it afterwards; an accepted connection stays open, also after the later rejections of the case. Thorough tier, aux stream: the same socket '
+         'stream over the REAL QuicTransport (harness built with --features quic: 25 cases + the stored script case; inbound and outbound, '
+         'accept_pending | reject_pending, accept | reject). (5) 9604, two table cases every run + one generated case in 500 (4000 thorough): '
+         'COMPLETE Litep2p nodes over real loopback TCP sockets, configured through the public API (ConfigBuilder::with_connection_limits) and '
+         'observed through it only: the node under test with limits from {None,0,1,2}^2 and four remote nodes (one runtime each, so that a node can '
+         'be killed); operations: a remote dials the node, the node dials a remote by address, a remote is killed; recorded: whether the node '
+         'reports ConnectionEstablished / ConnectionClosed, the result of Litep2p::dial_address (Ok / ConnectionLimit), and what the remote saw '
+         '(open / established then closed / dial failed). The expected answers are computed by the MANAGER MODEL from the translation of each '
+         'operation into manager events (AllocConn, PendingInbound, Established, AcceptDone, Closed, dial_address). Oracle on the public '
+         'observations: never above the maxima, a new peer gets in below them, a turned-away remote sees its connection go, ConnectionLimit exactly '
+         'at the outbound maximum, ConnectionClosed exactly for a connected peer. (6) untagged: stored corpus cases in the plain manager format. '
+         'Non-trivial: trace >= 8 numbers; distinct (case, trace) pairs are counted.',
+ 'level_text': "Proof: the cap invariant (every established connection is recorded in its peer's state, ids unique, counted sets = established "
+               'connections of that direction, sizes within the configured maxima, accept futures consistent) is inductive over every event the '
+               'manager handles — connections arriving over several transports, dials spanning several transports —, for every configuration incl. '
+               'Some 0 and every set of installed transports, under the stated uniqueness of connection ids; corollaries: at most two per peer, '
+               'maxima never exceeded, no leaked slot, exact release, dial gate. On top: the COMPLETE decision of on_connection_established (accept '
+               'exactly when the direction is below its maximum and the per-peer rule admits the connection, reject exactly otherwise, a reject '
+               'reserves nothing — for every state reachable under the transport contract), every gate (pending inbound socket, established '
+               'connection, dial) refuses exactly when the number of ESTABLISHED connections of the direction equals the maximum, a close of a '
+               'counted connection frees its direction, a close of anything else changes nothing. ConnectionLimits as an object of its own (any call '
+               "sequence following its calling discipline keeps the maxima; the builder; on_dial_address's promise) and the proof that the manager's "
+               'inline bookkeeping IS the effect of the calls it makes on that object, in the order read from the source, following the discipline. '
+               'PeerState with its ConnectionRecords: the whole transition table (7 shapes x 8 methods), two slots, accepted = appended in the first '
+               'free slot, refused iff both taken or one reserved for a dial in flight, closed = exactly its slot, ConnectionClosed exactly when the '
+               "last goes; refinement to the manager model's address-free machine. Composition: C08's environment assumption 'at most two open "
+               "connections per peer, closes refer to open connections' is proved of the composed system manager + protocol reports, so C08's "
+               'theorems apply to it. Transports: reject / reject_pending of TcpTransport forget the connection and report nothing (model of '
+               'coq/Tcp); the same shape is read from the websocket and quic sources. All models tied to the code step by step; limits object, '
+               'PeerState and real tcp/websocket sockets are driven directly, and complete Litep2p nodes over real sockets answer as the manager '
+               'model predicts.',
+ 'level_note': 'Trusted: Coq kernel, extraction, harness; ScriptedTransport (test double of the Transport trait) for the manager stream; the '
+               'cfg(verif) wrapper LoggedLimits (delegates to the real ConnectionLimits and logs). Environment assumption env_ok of the manager '
+               'theorems: an established connection never reuses a live id (the transports draw ids from one shared counter), a close notice names '
+               'the owning peer and follows the accept future (discharged for the node by C07_node_feeds_manager). Composition with C08: the '
+               "protocol is told Established only for a connection of the manager's ledger and once per id, and the manager's Closed / failed accept "
+               'arrive after the protocol was told (C07_order, C07_accept_each_once, C07_node_no_rollback). Not modelled: WebRTC sockets; QUIC '
+               "sockets only in the thorough tier's aux stream (real QuicTransport pairs) and by the shape of its accept/reject bodies, the scores "
+               'of the address store (C10). Observation outside the property text: ConnectionLimits::new calls HashSet::with_capacity(max), so a '
+               "maximum of usize::MAX panics with 'capacity overflow' when the node is built (not produced by the harness).",
+ 'trusted_base': ['uniqueness of connection ids across transports (one shared atomic counter in the code) is an assumption of the manager theorems '
+                  '(env_ok)',
+                  'real-socket stream: "stays open" of an accepted connection is observed for 150 ms after the accept and again at the end of the '
+                  'case; "goes away" of a rejected one within 10 s',
+                  'complete-node stream: absence of an event is observed for 300 ms, presence within 10 s; remote nodes run on their own runtimes '
+                  'and are killed by shutting the runtime down'],
+ 'assumptions': ['manager stream: two installed transports at most (TCP, WebSocket); QUIC only in the socket stream of the thorough tier; webrtc not '
+                 'driven',
+                 'usize counters do not wrap',
+                 'limit configurations: None, Some 0, small (the theorems hold for every N; the harness produces None and 0..5)'],
+ 'clause_map': [['at any moment the node keeps at most two established connections per remote peer',
+                 'C06_two_per_peer (ledger), C06_peer_slots_at_most_two + C06_peer_table + C06_peer_refused_iff (PeerState with records), '
+                 'C06_per_peer_rule, C06_protocol_holds_at_most_two + C06_provides_C08_feasible (what protocols see)',
+                 "9602 (count_peer <= 2 at every step), 9601 (REAL PeerState: table + walks), C08's harness for the protocol side"],
+                ['the numbers of established inbound and outbound connections never exceed the configured maxima',
+                 'C06_cap_invariant_step / _reachable, C06_limits, C06_limits_object_invariant (+ _step), C06_manager_uses_limits_object, '
+                 'C06_manager_calls_guarded, C06_limits_builder',
+                 '9602 (both maxima on ledger and dumped sets, call log), 9600 (REAL ConnectionLimits, every configuration of {None,0,1,2}^2), 9604 '
+                 '(complete nodes: never above the configured maxima, configuration plumbing ConfigBuilder -> Litep2p::new -> manager)'],
+                ['surplus connections are rejected',
+                 'C06_established_decision, C06_decision_reachable, C06_refuses_iff_full, C06_pending_inbound_gate, C06_dial_gate, '
+                 'C06_dial_refused_iff_object_refuses, C06_limits_dial_capacity, C06_manager_source_shape, C06_established_answered_once',
+                 '9602 (reject / reject_pending calls, Ret ConnectionLimit), tables read from the source (next_arms, pending_arms_ok), 9602 (exactly '
+                 'one of accept | reject per established connection), 9604 (Litep2p::dial_address = ConnectionLimit exactly at the outbound maximum; '
+                 'turned-away remotes)'],
+                ['... without disturbing existing ones',
+                 'C06_reject_preserves, C06_reject_reserves_nothing, C06_peer_established_slots (refused: no slot changes), C06_tcp_reject_forgets, '
+                 'C06_tcp_reject_pending_forgets, C06_tcp_rejected_pending_has_no_future, C06_tcp_accept_or_reject_once, C06_transports_reject_shape',
+                 '9602 (est_view unchanged on reject), 9601, 9603 (REAL tcp / websocket sockets: rejected = closed for the remote and never '
+                 'reported; accepted connections still open at the end)'],
+                ['capacity is released exactly when a counted connection closes',
+                 'C06_release_exact, C06_limits_closed_exact, C06_closed_frees_slot, C06_uncounted_close_keeps, C06_counted_are_live, '
+                 'C06_peer_closed_slots, C06_peer_closed_reports_iff',
+                 '9602 (no leaked slot: counted ids = established connections of that direction; rollbacks of accept error / accept-future error), '
+                 '9600 (close removes exactly its id), 9604 (after a remote is killed the next one gets in / the next dial succeeds)'],
+                ['so a node below its limits accepts a new connection from a peer it is not yet connected to',
+                 'C06_below_limit_accepts, C06_not_connected_accepted, C06_established_decision, C06_refuses_iff_full',
+                 "9602 ('accepted when below the limit' clause of the oracle, crowd shapes), 9604"],
+                ['for all limit configurations (none, zero, small) and all interleavings of inbound arrivals, outbound dials, establishments, '
+                 'rejections, accept failures and closures across several peers',
+                 'all manager theorems quantify over every limits record, event list and state; C06_nonvacuous, Compose08.compose_nonvacuous',
+                 'generator: limits {None,0..5} asymmetric, accept() errors, accept-future errors, failing reject / accept_pending / reject_pending, '
+                 '5 peers, 2 transports']],
+ 'aux_stream': {'tiers': ['thorough'],
+                'features': 'quic',
+                'target_dir': 'target-quic',
+                'args': '--focus limits --sock-quic 1',
+                'cases': {'thorough': 25},
+                'corpus': 'corpus/C06-quic'}}
